@@ -75,7 +75,8 @@ func liveProfile() Profile {
 	p.MaxSteps = 25
 	p.Weights[KSlashHook] = 6
 	p.Weights[KSlash] = 6
-	p.Weights[GDrainAsset] = 5
+	p.Weights[GDrainAsset] = 8
+	p.Weights[GRedelThenExit] = 10
 	p.Weights[KValExit] = 1
 	p.Weights[KValCreate] = 1
 	return p
